@@ -25,6 +25,8 @@ func (p *refPkt) Data() int { return p.n }
 type refRing struct {
 	slots   []*refPkt
 	started bool
+	size    uint16
+	newest  uint16
 }
 
 // Get is the accessor named in the checker's table: the good version of retain-before-return.
@@ -292,4 +294,42 @@ func (r *refRing) BadT6Skip(from, to int, p *refPkt) {
 	idx := to % len(r.slots)
 	r.dropSlot(idx)
 	r.slots[idx] = p
+}
+
+// ---- T7: a packet stored without becoming the newest lies inside the window -----------------------------------------
+
+func (r *refRing) vacate(idx uint16) {
+	if prev := r.slots[idx]; prev != nil {
+		prev.Release()
+	}
+	r.slots[idx] = nil
+}
+
+// GoodT7Add drops a late packet that is older than the window.
+func (r *refRing) GoodT7Add(p *refPkt) {
+	seq := p.seq
+	if d := seq - r.newest; d != 0 && d < 1<<15 {
+		for i := r.newest + 1; i != seq; i++ {
+			r.vacate(i % r.size)
+		}
+		r.newest = seq
+	} else if r.newest-seq >= r.size {
+		p.Release()
+		return
+	}
+	r.vacate(seq % r.size)
+	r.slots[seq%r.size] = p
+}
+
+// BadT7Add stores every late packet, whatever its age.
+func (r *refRing) BadT7Add(p *refPkt) {
+	seq := p.seq
+	if d := seq - r.newest; d != 0 && d < 1<<15 {
+		for i := r.newest + 1; i != seq; i++ {
+			r.vacate(i % r.size)
+		}
+		r.newest = seq
+	}
+	r.vacate(seq % r.size)
+	r.slots[seq%r.size] = p
 }
